@@ -7,7 +7,6 @@ import (
 	"go/token"
 	"go/types"
 	"sort"
-	"strings"
 
 	"golang.org/x/tools/go/packages"
 	"golang.org/x/tools/go/ssa"
@@ -91,229 +90,16 @@ func resolveByteOrderVar(p *core.Program, pkg *packages.Package, e ast.Expr) str
 }
 
 func c03(p *core.Program, r *core.Report) {
-	ln := layoutNames(p)
-	const tT = "type-code-table"
-	r.Rule(tT, "the writer's type switch, the reader's code switch and the embedded ISO/OGC table map the same Go geometry type to the same code 1..7, in both wkb and ewkb; the reader's child assertion in each Multi* case names the part type of the parent", 2*(7+7+3))
-	const tD = "dimension-table"
-	r.Rule(tD, "writer's layout switch (+1000*k for WKB, Z/M flag bits for EWKB), reader's split of the type word (1000*(t/1000), t%1000 / masks) and the spec table agree for XY, XYZ, XYM, XYZM; the SRID flag is 0x20000000 on both sides", 20)
+	typeWordEvalRule(p, r, "type-word-evaluated")
 	const tB = "byte-order-table"
 	r.Rule(tB, "byte order id 0 <-> binary.BigEndian and 1 <-> binary.LittleEndian in every writer and reader switch (package vars resolved through their initialisers)", 8)
 
 	for _, rel := range []string{"encoding/wkb", "encoding/ewkb"} {
-		isE := rel == "encoding/ewkb"
 		wfd, wpkg := p.DeclOf(rel, "Write")
 		rfd, rpkg := p.DeclOf(rel, "Read")
 		if wfd == nil || rfd == nil {
-			r.Lost(tT, rel+".Read/Write", "Read or Write no longer resolves")
+			r.Lost(tB, rel+".Read/Write", "Read or Write no longer resolves")
 			continue
-		}
-		// ---------- writer
-		var typeVar string
-		wTypes := map[string]int64{}
-		for _, sw := range eng.Switches(wpkg, wfd.Body) {
-			if sw.IsType {
-				// the type switch whose clauses assign a constant to one variable
-				rows := map[string]int64{}
-				lhs := ""
-				okAll := true
-				for _, c := range sw.Clauses {
-					if c.Keys[0].Default {
-						continue
-					}
-					if len(c.Assigns) != 1 || c.Assigns[0].Const == nil || c.Assigns[0].Op != token.ASSIGN {
-						okAll = false
-						break
-					}
-					v, _ := eng.ConstInt64(c.Assigns[0].Const)
-					for _, k := range c.Keys {
-						rows[eng.TypeShort(k.Type)] = v
-					}
-					lhs = c.Assigns[0].LHS
-				}
-				if okAll && len(rows) > 0 {
-					typeVar, wTypes = lhs, rows
-				}
-			}
-		}
-		for _, gt := range sortedKeys(specTypeCode) {
-			key := fmt.Sprintf("%s.Write/type/%s", rel, gt)
-			got, ok := wTypes[gt]
-			r.Check(ok && got == specTypeCode[gt], tT, key, p.Pos(wfd.Pos()), true,
-				fmt.Sprintf("writer assigns %d = spec", got), fmt.Sprintf("writer maps %s to %d (present=%v), spec says %d", gt, got, ok, specTypeCode[gt]))
-		}
-		for gt := range wTypes {
-			if _, ok := specTypeCode[gt]; !ok {
-				r.Bad(tT, fmt.Sprintf("%s.Write/type/%s", rel, gt), p.Pos(wfd.Pos()), "writer encodes a type the spec table does not contain")
-			}
-		}
-		// writer dimension switch: tag is a call to Layout()
-		wDims := map[string]int64{}
-		foundDim := false
-		for _, sw := range eng.Switches(wpkg, wfd.Body) {
-			if sw.IsType || sw.Tag == nil || !strings.HasSuffix(sw.TagStr, ".Layout()") {
-				continue
-			}
-			foundDim = true
-			for _, c := range sw.Clauses {
-				for _, k := range c.Keys {
-					if k.Default || k.Const == nil {
-						continue
-					}
-					kv, _ := eng.ConstInt64(k.Const)
-					name := ln[kv]
-					if name == "NoLayout" {
-						continue
-					}
-					var add int64
-					for _, a := range c.Assigns {
-						if a.LHS != typeVar {
-							continue
-						}
-						if v, ok := eng.ConstInt64(a.Const); ok && (a.Op == token.ADD_ASSIGN || a.Op == token.OR_ASSIGN) {
-							add += v
-						} else {
-							add = -1
-						}
-					}
-					wDims[name] = add
-				}
-			}
-		}
-		spec := specWKBDim
-		if isE {
-			spec = specEWKBFlag
-		}
-		if !foundDim {
-			r.Lost(tD, rel+".Write/layout-switch", "no switch over g.Layout() in Write")
-		}
-		for _, l := range sortedKeys(spec) {
-			got, ok := wDims[l]
-			r.Check(ok && got == spec[l], tD, fmt.Sprintf("%s.Write/dim/%s", rel, l), p.Pos(wfd.Pos()), true,
-				fmt.Sprintf("writer adds %#x = spec", got), fmt.Sprintf("writer adds %#x for layout %s (present=%v), spec says %#x", got, l, ok, spec[l]))
-		}
-		// ---------- reader
-		rTypes := map[int64]string{}
-		rDims := map[int64]string{}
-		childAssert := map[int64]string{}
-		var typeTag, dimTag ast.Expr
-		for _, sw := range eng.Switches(rpkg, rfd.Body) {
-			if sw.IsType || sw.Tag == nil {
-				continue
-			}
-			// dimension switch: clauses assign a geom.Layout constant
-			nLayout, nRet := 0, 0
-			for _, c := range sw.Clauses {
-				for _, a := range c.Assigns {
-					if a.Type != nil && namedTypeQual(a.Type) == mod+".Layout" && a.Const != nil {
-						nLayout++
-					}
-				}
-				if len(c.Returns) > 0 {
-					nRet++
-				}
-			}
-			tagType := rpkg.TypesInfo.Types[sw.Tag].Type
-			if tagType == nil || namedTypeQual(tagType) != mod+"/encoding/wkbcommon.Type" {
-				continue
-			}
-			if nLayout >= 3 {
-				dimTag = sw.Tag
-				for _, c := range sw.Clauses {
-					for _, k := range c.Keys {
-						if k.Default {
-							continue
-						}
-						kv, _ := eng.ConstInt64(k.Const)
-						for _, a := range c.Assigns {
-							if a.Const != nil && namedTypeQual(a.Type) == mod+".Layout" {
-								lv, _ := eng.ConstInt64(a.Const)
-								rDims[kv] = ln[lv]
-							}
-						}
-					}
-				}
-				continue
-			}
-			// type switch: clauses return constructors
-			typeTag = sw.Tag
-			for _, c := range sw.Clauses {
-				for _, k := range c.Keys {
-					if k.Default {
-						continue
-					}
-					kv, _ := eng.ConstInt64(k.Const)
-					types_ := map[string]bool{}
-					for _, ret := range c.Returns {
-						if len(ret.Results) == 2 && types.ExprString(ret.Results[1]) == "nil" && ret.Types[0] != nil {
-							if b, ok := ret.Types[0].(*types.Basic); ok && b.Kind() == types.UntypedNil {
-								continue
-							}
-							types_[eng.TypeShort(ret.Types[0])] = true
-						}
-					}
-					var tl []string
-					for t := range types_ {
-						tl = append(tl, t)
-					}
-					sort.Strings(tl)
-					rTypes[kv] = strings.Join(tl, "|")
-					for _, st := range c.Body {
-						ast.Inspect(st, func(n ast.Node) bool {
-							if ta, ok := n.(*ast.TypeAssertExpr); ok && ta.Type != nil {
-								childAssert[kv] = eng.TypeShort(rpkg.TypesInfo.Types[ta.Type].Type)
-							}
-							return true
-						})
-					}
-				}
-			}
-		}
-		for _, gt := range sortedKeys(specTypeCode) {
-			code := specTypeCode[gt]
-			got := rTypes[code]
-			r.Check(got == gt, tT, fmt.Sprintf("%s.Read/type/%d", rel, code), p.Pos(rfd.Pos()), true,
-				fmt.Sprintf("reader constructs %s for code %d = writer = spec", got, code), fmt.Sprintf("reader constructs %q for code %d; spec and writer say %s", got, code, gt))
-		}
-		for code, got := range rTypes {
-			found := false
-			for _, c := range specTypeCode {
-				if c == code {
-					found = true
-				}
-			}
-			if !found && got != "" {
-				r.Bad(tT, fmt.Sprintf("%s.Read/type/%d", rel, code), p.Pos(rfd.Pos()), "reader accepts a type code outside the spec table and builds "+got)
-			}
-		}
-		for code, part := range map[int64]string{4: "*geom.Point", 5: "*geom.LineString", 6: "*geom.Polygon"} {
-			r.Check(childAssert[code] == part, tT, fmt.Sprintf("%s.Read/child/%d", rel, code), p.Pos(rfd.Pos()), true,
-				"child asserted to "+part, fmt.Sprintf("parts of code %d are asserted to %q, want %s", code, childAssert[code], part))
-		}
-		for _, l := range sortedKeys(spec) {
-			got := rDims[spec[l]]
-			r.Check(got == l, tD, fmt.Sprintf("%s.Read/dim/%s", rel, l), p.Pos(rfd.Pos()), true,
-				fmt.Sprintf("reader maps %#x to %s", spec[l], l), fmt.Sprintf("reader maps dimension code %#x to %q, spec says %s", spec[l], got, l))
-		}
-		for code, l := range rDims {
-			okc := false
-			for sl, sc := range spec {
-				if sc == code && sl == l {
-					okc = true
-				}
-			}
-			if !okc {
-				r.Bad(tD, fmt.Sprintf("%s.Read/dim/extra-%#x", rel, code), p.Pos(rfd.Pos()), fmt.Sprintf("reader maps %#x to %s, not in the spec table", code, l))
-			}
-		}
-		// the split of the type word
-		splitOK, why := checkSplit(rpkg, dimTag, typeTag, isE)
-		r.Check(splitOK, tD, rel+".Read/split", p.Pos(rfd.Pos()), true, why, why)
-		if isE {
-			// SRID flag on both sides
-			nR, okR := sridMaskUses(rpkg, rfd)
-			nW, okW := sridMaskUses(wpkg, wfd)
-			r.Check(okR && nR >= 1, tD, rel+".Read/srid-flag", p.Pos(rfd.Pos()), true, "reader tests the type word against 0x20000000", "reader's SRID test does not use mask 0x20000000")
-			r.Check(okW && nW >= 2, tD, rel+".Write/srid-flag", p.Pos(wfd.Pos()), true, "writer sets and tests 0x20000000", "writer's SRID flag is not 0x20000000 on both the set and the test")
 		}
 		// ---------- byte order tables
 		for _, side := range []struct {
